@@ -204,13 +204,30 @@ class Pipe(Stream):
         return None
 
 
+class HTTPNonLogical(Stream):
+    name = "audithttp"
+    driver = "audithttp"
+    harness = {"name": "c11http", "module": "root", "pkg": "./internal/http",
+               "files": {"internal/http/zz_verif_c11h_test.go": "wb/http/zz_verif_c11h_test.go",
+                         "internal/zzverif/vh/vh.go": "vh/vh.go"}}
+    testname = "TestVerifC11HTTP"
+    timeout = 600
+    rule = ("the audited 'non logical' endpoints of the HTTP layer (handleAuditNonLogical): sys/generate-root/attempt and the "
+            "final sys/rekey/update over a real listener, one audit device that accepts everything / refuses every request entry "
+            "/ refuses every response entry; what the client received (status class, OTP or new key shares in the body) against "
+            "the pipeline rule (Obao.AuditPipeline: no response without an accepted response entry); non-trivial = every line")
+
+    def nontrivial(self, op, impl):
+        return True
+
+
 class C11(PropCheck):
     pid = "C11"
     lean_modules = ["C11", "C11Gen"]
 
     def pre(self, ctx):
         core.regenerate()
-    streams = [HashWalk(), Broker(), Pipe(), E2E()]
+    streams = [HashWalk(), Broker(), Pipe(), E2E(), HTTPNonLogical()]
     level_text = ("Lean theorems, all inputs: hash_no_plain_leaf / secret_only_where_exempt (every data tree, key list and HMAC "
                   "function: a string leaf survives in clear only if RFC 3339 shaped or under an exempt innermost key; shape "
                   "preserved), hash_auth_wrap (client and wrapping tokens always hidden, accessors iff hmac_accessor), "
